@@ -92,6 +92,16 @@ class Path:
             r2 = _guarded(lambda: self.solver.check(t), 5.0)
             if r2 == z3.unsat:
                 r = r2
+            elif r2 == z3.unknown:
+                # a fresh (non-incremental) solver on the lambda-abstracted path condition often refutes what the
+                # incremental one gives up on; `unsat` of the abstraction is `unsat` of the original
+                s3 = z3.Solver()
+                s3.set("rlimit", RLIMIT_BRANCH * 4)
+                s3.add(*[_abs_lambdas(c) for c in self.pc])
+                s3.add(_abs_lambdas(t))
+                r3 = _guarded(lambda: s3.check(), 5.0)
+                if r3 == z3.unsat:
+                    r = r3
             if os.environ.get("PYVC_TRACE_DECIDE"):
                 print("FEASIBLE light/full", r, r2, flush=True)
         elif os.environ.get("PYVC_TRACE_DECIDE"):
